@@ -236,6 +236,9 @@ def build(pool, hist, with_queries=True):
     return el, ref
 
 
+USE_EXTRA = [True]      # cleared when the extra attributes are not canonical
+
+
 def canon(el, pool, hist):
     """layout of the internal array as pool indices; falls back to the raw
     history when the attribute is not a list of tuples ending in the event"""
@@ -251,7 +254,7 @@ def canon(el, pool, hist):
         extra = tuple(sorted(
             (k, _norm(v, pool)) for k, v in vars(el).items()
             if k not in ("_event_list", "_verif_other")))
-        if extra:
+        if extra and USE_EXTRA[0]:
             return ("layout", tuple(out), extra)
         return ("layout", tuple(out))
     except Exception:
@@ -337,10 +340,27 @@ def check_history(pool, K, hist, op):
 
 
 def explore_pool(task):
+    USE_EXTRA[0] = True
+    try:
+        return explore_pool_(task)
+    except common.FingerprintTooFine as ex:
+        # (attributes that differ from run to run, e.g. an index keyed by
+        # id(): the layout of the heap array alone is the state)
+        USE_EXTRA[0] = False
+        try:
+            r = explore_pool_(task)
+        finally:
+            USE_EXTRA[0] = True
+        r["fp_fallback"] = str(ex)
+        return r
+
+
+def explore_pool_(task):
     kind, K, order, rot, max_states = task
     pool = make_pool(kind, K, order, rot)
     init_c = ("layout", ())
     seen = {init_c: ()}
+    layouts = set()
     frontier = collections.deque([((), frozenset())])
     transitions = 0
     viols = []
@@ -376,6 +396,9 @@ def explore_pool(task):
                     continue
                 seen[c] = hist + (op,)
                 frontier.append((hist + (op,), pres2))
+                if len(c) > 2:
+                    layouts.add(c[1])
+                    common.fp_guard(len(seen), len(layouts))
     descr = [(repr(e.time), e.priority, e.id) for e in pool]
     return dict(kind=kind, K=K, order=order, rot=rot, states=len(seen),
                 transitions=transitions, maxdepth=maxdepth, viols=viols,
@@ -631,6 +654,12 @@ def run(ctx):
                     "deepest_history": r["sample"]}, limit=3)
         if r["capped"]:
             ctx.cap("state cap hit in %s" % r["kind"])
+        if r.get("fp_fallback") and not any("not canonical" in a_
+                                            for a_ in ctx.assumptions):
+            ctx.assumptions.append(
+                "the extra attributes of the list object are not canonical "
+                "(%s): states merged on the heap layout alone" %
+                r["fp_fallback"])
         for (hist, op, bad) in r["viols"]:
             ctx.violation(sig_of(r["kind"], bad),
                           "eventlist %s pool: after history %s op %s: %s" % (
